@@ -1390,17 +1390,33 @@ class UnitDatabase(Singleton):
                 if used_unit_for_quantity_type is None:
                     quantity_types_found_to_used_unit[quantity_type] = unit
                 else:
-                    # don't worry about the exponent at this time, just update the unit and the related value.
+                    # update the unit and the related value (the amount is given in unit ** _exp)
                     if c is category_to_unit_and_exp1:
-                        value1 = self.Convert(
-                            quantity_type, unit, used_unit_for_quantity_type, value1
+                        value1 = self._ConvertMatchedValue(
+                            quantity_type, unit, used_unit_for_quantity_type, _exp, value1
                         )
                     else:
-                        value2 = self.Convert(
-                            quantity_type, unit, used_unit_for_quantity_type, value2
+                        value2 = self._ConvertMatchedValue(
+                            quantity_type, unit, used_unit_for_quantity_type, _exp, value2
                         )
                     unit_exp[0] = used_unit_for_quantity_type
         return category_to_unit_and_exp1, category_to_unit_and_exp2, value1, value2
+
+    def _ConvertMatchedValue(
+        self, quantity_type: str, from_unit: str, to_unit: str, exp: int, value: Any
+    ) -> Any:
+        """
+        Re-expresses a value given in `from_unit ** exp` in `to_unit ** exp` (used when matching the
+        units of an operation).
+        """
+        if exp == 1 or from_unit == to_unit:
+            return self.Convert(quantity_type, from_unit, to_unit, value)
+
+        # a power of a unit scales by the unit ratio raised to that power
+        factor = self._ConvertWithExp(quantity_type, [(from_unit, exp)], [(to_unit, exp)], 1.0)
+        if isinstance(value, (list, tuple)):
+            return value.__class__(v * factor for v in value)
+        return value * factor
 
     def _DoOperationResultingInNewQuantity(
         self,
